@@ -55,8 +55,9 @@ func main() {
 			if res.Status == "end" {
 				break
 			}
-			if res.Status == "skip" {
-				continue
+			if res.Status == "skip" { // not a legal crash image of the recorded trace (independent of the variant)
+				enc.Encode(h.Result{ID: id, Status: "skip"})
+				break
 			}
 			enc.Encode(res)
 		}
